@@ -21,6 +21,11 @@ pub fn worker_case(case: &str) -> String {
     let arg = |s: Option<&str>| s.and_then(unhex).unwrap_or_default();
     match entry {
         "L" => load_reply(&arg(it.next())),
+        // amplification probe: load, then report the peak resident set of this (fresh) worker process and the time taken
+        "A" => { let b = arg(it.next()); let t = std::time::Instant::now();
+                 let r = Document::load_mem(&b).map(|d| d.objects.len());
+                 let hwm = std::fs::read_to_string("/proc/self/status").ok().and_then(|s| s.lines().find(|l| l.starts_with("VmHWM:")).and_then(|l| l.split_whitespace().nth(1).and_then(|v| v.parse::<u64>().ok()))).unwrap_or(0);
+                 format!("{} rss_kb={} ms={}", match r { Ok(n) => format!("ok {}", n), Err(_) => "err".into() }, hwm, t.elapsed().as_millis()) }
         "I" => { let b = arg(it.next()); match IncrementalDocument::load_from(&b[..]) { Ok(d) => format!("ok {}", d.get_prev_documents().objects.len()), Err(_) => "err".into() } }
         "C" => { let b = arg(it.next()); match Content::decode(&b) { Ok(c) => format!("ok {}", c.operations.len()), Err(_) => "err".into() } }
         "T" => { let b = arg(it.next()); match lopdf::decode_text_string(&Object::string_literal(b)) { Ok(s) => format!("ok {}", s.chars().count()), Err(_) => "err".into() } }
@@ -57,6 +62,69 @@ pub fn worker_case(case: &str) -> String {
         }
         _ => "bad-entry".into(),
     }
+}
+
+const AMP_N: usize = 3500;
+/// (kind, worker case): inputs of 30–120 kB built so that a naive reader does quadratic work or keeps quadratically many copies
+fn amplification_cases() -> Vec<(&'static str, String)> {
+    let n = AMP_N;
+    let big_array = |m: usize| { let mut b = String::from("["); for _ in 0..m { b.push_str("1 "); } b.push(']'); b };
+    let file_with = |objs: &[(u32, String)], xref_entries: &[(u32, usize)]| -> Vec<u8> {
+        // objs are written in order; xref_entries: (number, index into objs whose offset to use)
+        let mut f = b"%PDF-1.5\n".to_vec(); let mut offs = vec![];
+        for (num, body) in objs { offs.push(f.len()); f.extend_from_slice(format!("{} 0 obj\n{}\nendobj\n", num, body).as_bytes()); }
+        let xs = f.len();
+        let maxn = xref_entries.iter().map(|e| e.0).max().unwrap_or(0);
+        f.extend_from_slice(format!("xref\n0 {}\n0000000000 65535 f \n", maxn + 1).as_bytes());
+        for k in 1..=maxn { match xref_entries.iter().find(|e| e.0 == k) { Some(e) => f.extend_from_slice(format!("{:010} 00000 n \n", offs[e.1]).as_bytes()), None => f.extend_from_slice(b"0000000000 65535 f \n") } }
+        f.extend_from_slice(format!("trailer\n<</Size {}/Root 1 0 R>>\nstartxref\n{}\n%%EOF", maxn + 1, xs).as_bytes());
+        f
+    };
+    let mut v = vec![];
+    // (a) object stream: n index pairs, every offset 0, one array of n integers
+    { let mut index = String::new(); for i in 0..n { index.push_str(&format!("{} 0 ", 10 + i)); }
+      let content = format!("{}{}", index, big_array(n));
+      let stm = format!("<</Type/ObjStm/N {}/First {}/Length {}>>\nstream\n{}\nendstream", n, index.len(), content.len(), content);
+      let f = file_with(&[(1, "<</Type/Catalog>>".into()), (2, stm)], &[(1, 0), (2, 1)]);
+      v.push(("objstm-alias", format!("A {}", hex_tok(&f)))); }
+    // (b) the same members listed at DISTINCT, properly increasing offsets (one small object each): must be fine
+    { let mut index = String::new(); let mut body = String::new();
+      for i in 0..n { index.push_str(&format!("{} {} ", 10 + i, body.len())); body.push_str("[1 2 3] "); }
+      let content = format!("{}{}", index, body);
+      let stm = format!("<</Type/ObjStm/N {}/First {}/Length {}>>\nstream\n{}\nendstream", n, index.len(), content.len(), content);
+      let f = file_with(&[(1, "<</Type/Catalog>>".into()), (2, stm)], &[(1, 0), (2, 1)]);
+      v.push(("objstm-distinct", format!("A {}", hex_tok(&f)))); }
+    // (c) cross-reference table: n entries all pointing at one large object
+    { let entries: Vec<(u32, usize)> = std::iter::once((1u32, 0usize)).chain((2..(n as u32 + 2)).map(|k| (k, 1usize))).collect();
+      let f = file_with(&[(1, "<</Type/Catalog>>".into()), (2, big_array(n))], &entries);
+      v.push(("xref-alias", format!("A {}", hex_tok(&f)))); }
+    // (d) object stream: members at nested offsets of one deeply nested array (each `[` of 60 levels is a member)
+    { let depth = 60usize; let mut body = String::new(); for _ in 0..depth { body.push('['); } for _ in 0..n { body.push_str("1 "); } for _ in 0..depth { body.push(']'); }
+      let mut index = String::new(); for i in 0..depth { index.push_str(&format!("{} {} ", 10 + i, i)); }
+      let content = format!("{}{}", index, body);
+      let stm = format!("<</Type/ObjStm/N {}/First {}/Length {}>>\nstream\n{}\nendstream", depth, index.len(), content.len(), content);
+      let f = file_with(&[(1, "<</Type/Catalog>>".into()), (2, stm)], &[(1, 0), (2, 1)]);
+      v.push(("objstm-nested", format!("A {}", hex_tok(&f)))); }
+    // (f) the deepest nesting the parser accepts (MAX_NESTING - 1 closed arrays), as a plain object and as an object-stream member,
+    //     in files with 2 and with 300 cross-reference entries (rayon's own recursion shares the worker's stack with the parser)
+    for (tag, entries) in [("deep-nesting-2", 2usize), ("deep-nesting-300", 300usize)] {
+        let depth = 127usize; let mut body = String::new(); for _ in 0..depth { body.push('['); } body.push_str("1 2 3"); for _ in 0..depth { body.push(']'); }
+        let index = "400 0 ";
+        let content = format!("{}{}", index, body);
+        let stm = format!("<</Type/ObjStm/N 1/First {}/Length {}>>\nstream\n{}\nendstream", index.len(), content.len(), content);
+        let mut objs: Vec<(u32, String)> = vec![(1, "<</Type/Catalog>>".into()), (2, body.clone()), (3, stm)];
+        for k in 3..entries { objs.push((k as u32 + 1, "null".into())); }
+        let ents: Vec<(u32, usize)> = (0..objs.len()).map(|i| (objs[i].0, i)).collect();
+        let f = file_with(&objs, &ents);
+        v.push((tag, format!("A {}", hex_tok(&f))));
+    }
+    // (e) n streams sharing one indirect Length object
+    { let mut objs: Vec<(u32, String)> = vec![(1, "<</Type/Catalog>>".into()), (2, "3".into())];
+      for k in 0..n.min(1500) { objs.push((3 + k as u32, "<</Length 2 0 R>>\nstream\nabc\nendstream".into())); }
+      let entries: Vec<(u32, usize)> = (0..objs.len()).map(|i| (objs[i].0, i)).collect();
+      let f = file_with(&objs, &entries);
+      v.push(("shared-length", format!("A {}", hex_tok(&f)))); }
+    v
 }
 
 const EXTREMES: &[&str] = &["0", "1", "-1", "2", "255", "256", "65535", "65536", "2147483647", "2147483648", "4294967295", "4294967296", "4000000000",
@@ -266,6 +334,26 @@ with overflow checks. Outcome must be ok/err; `load` outcomes are also compared 
         for (w, o) in witnesses.iter().zip(out.iter()) {
             let bad = !(o.starts_with("ok") || o.starts_with("err"));
             c.witness(w.0, bad, &format!("{} -> {}", w.2, o.chars().take(80).collect::<String>()));
+        }
+    }
+    // amplification: small files (8-80 kB) whose structure makes one region of the input be parsed / copied many times. Each runs
+    // alone in a fresh worker, which reports its own peak resident set; more than 400 MB for such an input (5000 times its size)
+    // is an allocation unrelated to the input size.
+    {
+        let amp = amplification_cases();
+        for (k, (kind, case)) in amp.iter().enumerate() {
+            let Some(_r) = c.case("amplify", k as u64) else { continue };
+            c.nontrivial(case); c.evaluations += 1;
+            let out = run_isolated("C04", &[case.clone()], 60_000, 16384).pop().unwrap_or_default();
+            let rss_kb: u64 = out.split(' ').find_map(|t| t.strip_prefix("rss_kb=")).and_then(|v| v.parse().ok()).unwrap_or(u64::MAX);
+            let bad = !(out.starts_with("ok") || out.starts_with("err")) || rss_kb > 400 * 1024;
+            c.count(&format!("amplify.{}.{}", kind, if bad { "blow-up" } else { "fine" }));
+            c.extra.insert(format!("amplify.{}", kind), json!({"input_bytes": case.len() / 2, "outcome": out.chars().take(80).collect::<String>()}));
+            if *kind == "objstm-alias" { c.witness("F-C04-h", bad, &format!("object stream whose {} index pairs all point at one {}-element array ({} bytes of input) -> {}", AMP_N, AMP_N, case.len() / 2, out.chars().take(60).collect::<String>())); }
+            if *kind == "xref-alias" { c.witness("F-C04-h2", bad, &format!("cross-reference table whose {} entries all point at one {}-element array ({} bytes of input) -> {}", AMP_N, AMP_N, case.len() / 2, out.chars().take(60).collect::<String>())); }
+            let sig = if kind.starts_with("deep-nesting") { format!("stack:{}:{}", kind, if cfg!(debug_assertions) { "dev-profile" } else { "release" }) } else { format!("amplify:{}", kind) };
+            if kind.starts_with("deep-nesting") && cfg!(debug_assertions) { c.witness("F-C04-k", bad, &format!("{}: arrays nested 127 deep (below the parser's limit), dev profile -> {}", kind, out.chars().take(60).collect::<String>())); }
+            if bad { c.oracle_fail(&sig, &format!("{} bytes of input: {}", case.len() / 2, out.chars().take(80).collect::<String>()), json!({"kind": kind, "case": if case.len() < 4000 { case.clone() } else { format!("{}…", &case[..4000]) }})); }
         }
     }
     // run all cases isolated
